@@ -83,7 +83,7 @@ class MatrixGenerator:
     def inv(self):
         """Inverse of this matrix. Throws error if matrix is not invertible."""
         # TODO: implement modular inverse, if needed.
-        matrix_inv = np.array(np.linalg.inv(self.matrix), dtype=np.int64)
+        matrix_inv = np.array(np.round(np.linalg.inv(self.matrix)), dtype=np.int64)
         assert np.array_equal(self.apply(matrix_inv), np.eye(self.n)), "Matrix is not invertible."
         return MatrixGenerator.create(matrix_inv, self.modulo)
 
